@@ -554,7 +554,7 @@ func r13_2(c *Ctx, rule string) {
 	// mode (its setuid/setgid/sticky bits lie outside ModePerm and would
 	// survive a "replace the permission bits")
 	var octBlock *ssa.BasicBlock
-	eng.InstrsShallow(fn, func(in ssa.Instruction) {
+	eng.Instrs(fn, func(in ssa.Instruction) {
 		iff, ok := in.(*ssa.If)
 		if !ok {
 			return
@@ -604,6 +604,24 @@ func r13_2(c *Ctx, rule string) {
 			}
 		}
 		walk(call.Common().Args[1], 0)
+		// (the choice may be made in a helper, `c.effectiveMode(fi)`: what it
+		// returns on the octal branch)
+		if g := octBlock.Parent(); g != fn {
+			eng.InstrsShallow(g, func(in ssa.Instruction) {
+				r, isR := in.(*ssa.Return)
+				if !isR || !(octBlock == r.Block() || octBlock.Dominates(r.Block())) {
+					return
+				}
+				for _, res := range r.Results {
+					if c.DerivesFromAvoiding(res, isSrcMode, func(y ssa.Value) bool {
+						q, isQ := y.(*ssa.Phi)
+						return isQ && !(octBlock == q.Block() || octBlock.Dominates(q.Block()))
+					}, 10) {
+						bad = true
+					}
+				}
+			})
+		}
 		c.R.Check(!bad, rule, con, c.pos(call), "with the octal option set the mode applied is computed from the option alone", "with the octal Mode option set the mode applied still takes bits from the source's mode (the source's setuid/setgid/sticky bits survive a replacement of the permission bits): entries do not carry exactly the requested mode")
 	}
 	// the symbolic set is applied to the source mode itself: 'X' and friends
